@@ -10,7 +10,10 @@
     LF line ends, every line terminated.  Also covered (one line each, single spaces, terminated by
     " ;"): CM_ (all five object forms), VAL_ (signal and environment variable form), VAL_TABLE_,
     SIG_VALTYPE_ (with and without ':'), BO_TX_BU_ (with and without commas), EV_, ENVVAR_DATA_; their
-    numbers are optionally signed decimal integers, their strings plain.  The remaining kinds and layouts
+    numbers are optionally signed decimal integers, their strings plain.  BA_DEF_ (INT / HEX / FLOAT
+    with and without range, STRING, ENUM; with and without object type), BA_DEF_DEF_ and BA_ (all
+    object forms; value typed by the FIRST earlier BA_DEF_ of that name, enum values as string or
+    index; no value when there is no such BA_DEF_).  The remaining kinds and layouts
     of section 4.1 are exercised by the generator of harness/parser/gen.go (which is the executable
     definition of the full class used by the correspondence check).
 
@@ -49,6 +52,24 @@ Inductive sobj :=
 | ObjSignal (id n : bytes)
 | ObjEnvVar (n : bytes).
 
+(** object type keyword of an attribute definition *)
+Inductive sattr_obj := AONone | AONode | AOMessage | AOSignal | AOEnvVar.
+
+Inductive sattr_body :=
+| ABInt (hex : bool) (range : option (snum * snum))     (* INT | HEX [min max] *)
+| ABFloat (range : option (snum * snum))                (* FLOAT [min max] *)
+| ABString
+| ABEnum (v : bytes) (vs : list bytes).                 (* ENUM "v" , "v" ... *)
+
+(** the value of BA_DEF_DEF_ / BA_ as written; which form is legal depends on the attribute's type *)
+Inductive sattr_value :=
+| AVNone
+| AVInt (n : snum)
+| AVFloat (n : snum)
+| AVString (s : bytes)
+| AVEnumIndex (i : bytes)
+| AVEnumString (s : bytes).
+
 Inductive sdef :=
 | SVersion (s : bytes)
 | SBitTiming (bt : option (bytes * option (bytes * bytes)))   (* [ baud [ : btr1 , btr2 ] ] *)
@@ -61,7 +82,10 @@ Inductive sdef :=
 | SSigValType (id n : bytes) (colon : bool) (t : bytes)
 | SMsgTx (id : bytes) (txs : list (bytes * bool))                           (* name, followed by a comma? *)
 | SEnvVar (n t : bytes) (mn mx : snum) (unit : bytes) (init : snum) (id : bytes) (acc : Z) (node : bytes) (nodes : list bytes)
-| SEnvVarData (n size : bytes).
+| SEnvVarData (n size : bytes)
+| SAttr (o : sattr_obj) (name : bytes) (body : sattr_body)
+| SAttrDefault (name : bytes) (v : sattr_value)
+| SAttrValue (name : bytes) (o : sobj) (v : sattr_value).
 
 Definition print_utok (t : utok) : bytes :=
   match t with
@@ -109,8 +133,45 @@ Definition print_tx (x : bytes * bool) : bytes := 32 :: fst x ++ (if snd x then 
 Definition access_name (a : Z) : bytes :=
   if a =? 0 then s_ACC0 else if a =? 1 then s_ACC1 else if a =? 2 then s_ACC2 else s_ACC3.
 
+Definition print_attr_obj (o : sattr_obj) : bytes :=
+  match o with
+  | AONone => []
+  | AONode => 32 :: kw_nodes
+  | AOMessage => 32 :: kw_message
+  | AOSignal => 32 :: kw_signal
+  | AOEnvVar => 32 :: kw_envvar
+  end.
+
+Definition print_range (r : option (snum * snum)) : bytes :=
+  match r with
+  | None => []
+  | Some (a, b) => 32 :: print_num a ++ 32 :: print_num b
+  end.
+
+Definition print_quoted (s : bytes) : bytes := 34 :: s ++ [34].
+
+Definition print_attr_body (b : sattr_body) : bytes :=
+  match b with
+  | ABInt hex r => 32 :: (if hex then s_HEX else s_INT) ++ print_range r
+  | ABFloat r => 32 :: s_FLOAT ++ print_range r
+  | ABString => 32 :: s_STRING
+  | ABEnum v vs => 32 :: s_ENUM ++ 32 :: print_quoted v ++ concat (map (fun s => 32 :: 44 :: 32 :: print_quoted s) vs)
+  end.
+
+Definition print_attr_value (v : sattr_value) : bytes :=
+  match v with
+  | AVNone => []
+  | AVInt n | AVFloat n => 32 :: print_num n
+  | AVString s | AVEnumString s => 32 :: print_quoted s
+  | AVEnumIndex i => 32 :: i
+  end.
+
 Definition print_def (d : sdef) : bytes :=
   match d with
+  | SAttr o name body => kw_attribute ++ print_attr_obj o ++ 32 :: print_quoted name ++ print_attr_body body ++ 32 :: 59 :: [10]
+  | SAttrDefault name v => kw_attribute_default ++ 32 :: print_quoted name ++ print_attr_value v ++ 32 :: 59 :: [10]
+  | SAttrValue name o v =>
+    kw_attribute_value ++ 32 :: print_quoted name ++ print_obj o ++ print_attr_value v ++ 32 :: 59 :: [10]
   | SComment o t => kw_comment ++ print_obj o ++ 32 :: 34 :: t ++ 34 :: 32 :: 59 :: [10]
   | SValues (Some i) n vs => kw_value_descriptions ++ 32 :: i ++ 32 :: n ++ print_values vs ++ 32 :: 59 :: [10]
   | SValues None n vs => kw_value_descriptions ++ 32 :: n ++ print_values vs ++ 32 :: 59 :: [10]
@@ -194,9 +255,70 @@ Definition msgid (i : bytes) : Z := uint_value i mod 2 ^ 32.
 Definition access_of (a : Z) : access_type :=
   if a =? 0 then AccUnrestricted else if a =? 1 then AccRead else if a =? 2 then AccWrite else AccReadWrite.
 
+(** int64 of a number read by Parser.int: ParseFloat, int64 conversion with clamps, sign applied *)
+Definition num_int (n : snum) : Z :=
+  match parse_float (n_digits n) with
+  | Some b => let i := int64_of_b64 b in if n_neg n then neg64 i else i
+  | None => 0
+  end.
+
+Definition attr_obj_type (o : sattr_obj) : object_type :=
+  match o with
+  | AONone => OtUnspecified | AONode => OtNode | AOMessage => OtMessage | AOSignal => OtSignal | AOEnvVar => OtEnvVar
+  end.
+
+Definition attr_body_type (b : sattr_body) : attr_type :=
+  match b with
+  | ABInt false _ => AtInt | ABInt true _ => AtHex | ABFloat _ => AtFloat | ABString => AtString | ABEnum _ _ => AtEnum
+  end.
+
+Definition attr_body_enums (b : sattr_body) : list bytes :=
+  match b with ABEnum v vs => v :: vs | _ => [] end.
+
+(** the attribute definitions seen so far, in order: name -> (type, enum values); the FIRST entry of a
+    name types the values of BA_DEF_DEF_ / BA_ *)
+Definition actx := list (bytes * (attr_type * list bytes)).
+
+Fixpoint lookup_ctx (name : bytes) (ctx : actx) : option (attr_type * list bytes) :=
+  match ctx with
+  | [] => None
+  | (n, v) :: t => if bytes_eqb n name then Some v else lookup_ctx name t
+  end.
+
+Definition ctx_step (ctx : actx) (d : sdef) : actx :=
+  match d with
+  | SAttr _ name body => ctx ++ [(name, (attr_body_type body, attr_body_enums body))]
+  | _ => ctx
+  end.
+
+(** (int, float, string) value of BA_DEF_DEF_ / BA_ *)
+Definition elab_attr_value (ctx : actx) (name : bytes) (v : sattr_value) : Z * Z * bytes :=
+  match v with
+  | AVNone => (0, 0, [])
+  | AVInt n => (num_int n, 0, [])
+  | AVFloat n => (0, num_bits n, [])
+  | AVString s | AVEnumString s => (0, 0, s)
+  | AVEnumIndex i =>
+    match lookup_ctx name ctx with
+    | Some (_, vs) => (0, 0, nth (Z.to_nat (uint_value i)) vs [])
+    | None => (0, 0, [])
+    end
+  end.
+
 Definition elab_def (line off : Z) (d : sdef) : def :=
   let p := {| p_line := line; p_column := 1; p_offset := off |} in
   match d with
+  | SAttr o name body =>
+    DAttribute {| ad_pos := p; ad_object := attr_obj_type o; ad_name := name; ad_type := attr_body_type body;
+                  ad_min_int := (match body with ABInt _ (Some (a, _)) => num_int a | _ => 0 end);
+                  ad_max_int := (match body with ABInt _ (Some (_, b)) => num_int b | _ => 0 end);
+                  ad_min_float := (match body with ABFloat (Some (a, _)) => num_bits a | _ => 0 end);
+                  ad_max_float := (match body with ABFloat (Some (_, b)) => num_bits b | _ => 0 end);
+                  ad_enum_values := attr_body_enums body |}
+  | SAttrDefault name _ => DAttributeDefault {| dd_pos := p; dd_name := name; dd_int := 0; dd_float := 0; dd_string := [] |}
+  | SAttrValue name _ _ =>
+    DAttributeValue {| av_pos := p; av_name := name; av_object := OtUnspecified; av_message_id := 0; av_signal := [];
+                       av_node := []; av_envvar := []; av_int := 0; av_float := 0; av_string := [] |}
   | SComment o t =>
     DComment
       match o with
@@ -232,13 +354,34 @@ Definition elab_def (line off : Z) (d : sdef) : def :=
   | SUnknown kw _ => DUnknown p kw
   end.
 
-Fixpoint elab_from (line off : Z) (ds : list sdef) : list def :=
-  match ds with
-  | [] => []
-  | d :: t => elab_def line off d :: elab_from (line + def_lines d) (off + blen (print_def d)) t
+(** the denotation of one definition in the context of the attribute definitions before it (only
+    BA_DEF_DEF_ and BA_ depend on the context; for them [elab_def] above is a placeholder) *)
+Definition elab_def_ctx (ctx : actx) (line off : Z) (d : sdef) : def :=
+  let p := {| p_line := line; p_column := 1; p_offset := off |} in
+  match d with
+  | SAttrDefault name v =>
+    let '(i, f, s) := elab_attr_value ctx name v in
+    DAttributeDefault {| dd_pos := p; dd_name := name; dd_int := i; dd_float := f; dd_string := s |}
+  | SAttrValue name o v =>
+    let '(i, f, s) := elab_attr_value ctx name v in
+    DAttributeValue
+      match o with
+      | ObjNone => {| av_pos := p; av_name := name; av_object := OtUnspecified; av_message_id := 0; av_signal := []; av_node := []; av_envvar := []; av_int := i; av_float := f; av_string := s |}
+      | ObjNode n => {| av_pos := p; av_name := name; av_object := OtNode; av_message_id := 0; av_signal := []; av_node := n; av_envvar := []; av_int := i; av_float := f; av_string := s |}
+      | ObjMessage m => {| av_pos := p; av_name := name; av_object := OtMessage; av_message_id := msgid m; av_signal := []; av_node := []; av_envvar := []; av_int := i; av_float := f; av_string := s |}
+      | ObjSignal m n => {| av_pos := p; av_name := name; av_object := OtSignal; av_message_id := msgid m; av_signal := n; av_node := []; av_envvar := []; av_int := i; av_float := f; av_string := s |}
+      | ObjEnvVar n => {| av_pos := p; av_name := name; av_object := OtEnvVar; av_message_id := 0; av_signal := []; av_node := []; av_envvar := n; av_int := i; av_float := f; av_string := s |}
+      end
+  | _ => elab_def line off d
   end.
 
-Definition elaborate (ds : list sdef) : list def := elab_from 1 0 ds.
+Fixpoint elab_from (ctx : actx) (line off : Z) (ds : list sdef) : list def :=
+  match ds with
+  | [] => []
+  | d :: t => elab_def_ctx ctx line off d :: elab_from (ctx_step ctx d) (line + def_lines d) (off + blen (print_def d)) t
+  end.
+
+Definition elaborate (ds : list sdef) : list def := elab_from [] 1 0 ds.
 
 (** ------------------------------------------------------------------ well-formedness *)
 
@@ -303,8 +446,31 @@ Definition wf_value (v : snum * bytes) : Prop := wf_num (fst v) /\ Forall plain_
 (** an enumeration digit: "0" .. "max" *)
 Definition wf_enum (t : bytes) (mx : Z) : Prop := exists d, t = [d] /\ 48 <= d <= 48 + mx.
 
+Definition wf_range (r : option (snum * snum)) : Prop :=
+  match r with None => True | Some (a, b) => wf_num a /\ wf_num b end.
+
+Definition wf_attr_body (b : sattr_body) : Prop :=
+  match b with
+  | ABInt _ r | ABFloat r => wf_range r
+  | ABString => True
+  | ABEnum v vs => Forall plain_char v /\ Forall (Forall plain_char) vs
+  end.
+
+(** the value form must fit the type of the first BA_DEF_ of that name (none: no value) *)
+Definition wf_attr_value (ctx : actx) (name : bytes) (v : sattr_value) : Prop :=
+  match lookup_ctx name ctx, v with
+  | None, AVNone => True
+  | Some (AtInt, _), AVInt n | Some (AtHex, _), AVInt n | Some (AtFloat, _), AVFloat n => wf_num n
+  | Some (AtString, _), AVString s | Some (AtEnum, _), AVEnumString s => Forall plain_char s
+  | Some (AtEnum, vs), AVEnumIndex i => wf_uint i /\ uint_value i < Z.of_nat (length vs)
+  | _, _ => False
+  end.
+
 Definition wf_sdef (d : sdef) : Prop :=
   match d with
+  | SAttr _ name body => ident_valid name = true /\ wf_attr_body body
+  | SAttrDefault name _ => Forall plain_char name
+  | SAttrValue name o _ => Forall plain_char name /\ wf_obj o
   | SComment o t => wf_obj o /\ Forall plain_char t
   | SValues (Some i) n vs => wf_msgid i /\ ident_valid n = true /\ Forall wf_value vs
   | SValues None n vs => ident_valid n = true /\ Forall wf_value vs
@@ -325,3 +491,20 @@ Definition wf_sdef (d : sdef) : Prop :=
   | SNodes ns => Forall (fun n => ident_valid n = true) ns
   | SUnknown kw ts => ident_valid kw = true /\ dispatching kw = false /\ Forall wf_utok ts
   end.
+
+(** well-formedness in the context of the earlier attribute definitions *)
+Definition wf_sdef_ctx (ctx : actx) (d : sdef) : Prop :=
+  wf_sdef d /\
+  match d with
+  | SAttrDefault name v | SAttrValue name _ v => wf_attr_value ctx name v
+  | _ => True
+  end.
+
+Fixpoint wf_defs (ctx : actx) (ds : list sdef) : Prop :=
+  match ds with
+  | [] => True
+  | d :: t => wf_sdef_ctx ctx d /\ wf_defs (ctx_step ctx d) t
+  end.
+
+(** a whole file: no attribute definition precedes it *)
+Definition wf_file (ds : list sdef) : Prop := wf_defs [] ds.
